@@ -281,6 +281,14 @@ def build(P):
         for big in [32767, 32768, 65536 + 2020, 70000, 65537, 4294967296 + 5, 9223372036854775807, 99999]:
             ents += ["SETDATE(1, 1, %d)" % big, "SETDATE(%d, 1, 2020)" % big, "SETDATE(1, %d, 2020)" % big,
                      "1/1/%d" % big, "%d/1/2020" % big, "1/%d/2020" % big, "SETDATE(- %d, 1, 2020)" % big]
+        # the documented dd/mm/yyyy spelling: leading zeros in every field (all days x all months, longer zero runs for a few)
+        for d in range(0, 33):
+            for mth in range(0, 14):
+                ents.append("%02d/%02d/%04d" % (d, mth, r.choice([2021, 1999, 800, 64, 2024, 8])))
+        for d, mth, y in [(10, 11, 2021), (8, 9, 2021), (31, 10, 2021), (1, 1, 100), (19, 9, 1999), (29, 2, 2024), (29, 2, 2023), (7, 7, 777)]:
+            ents += ["0%d/%d/%d" % (d, mth, y), "%d/0%d/%d" % (d, mth, y), "%d/%d/0%d" % (d, mth, y), "00%d/000%d/00%d" % (d, mth, y),
+                     "DAY(0%d/0%d/0%d) * 1000000 + MONTH(0%d/0%d/0%d) * 10000 + YEAR(0%d/0%d/0%d)" % ((d, mth, y) * 3),
+                     "0%d/0%d/0%d = SETDATE(%d, %d, %d)" % (d, mth, y, d, mth, y)]
         ents += ["SETDATE(1, 1, - 5)", "SETDATE(- 1, 1, 2020)", "SETDATE(1, - 1, 2020)", "99999999999999999999999/1/2020", "1/1/99999999999999999999999"]
         for k, ch in enumerate(chunks(ents, 1000)):
             yield ("validity", [repl_case("C18-valid-%d" % k, ch, meta=dict(units=ch, oracle="valid"))])
